@@ -114,7 +114,6 @@ Proof.
   - intros x Hx. apply with_use_ts_len; [apply open_cb_len|exact Hx].
   - intros x Hx. apply with_use_ts_len; [apply close_cb_len|exact Hx].
   - apply no_space_len.
-  - intros x Hx. apply fail_len, Hx.
 Qed.
 
 Lemma ser_parts_len d ps : forall w, len_ok w -> len_ok (ser_parts d w ps).
@@ -137,6 +136,9 @@ Proof.
   pose proof (reserve_len d _ (ae - c_at (w_c w0)) L1) as L2.
   destruct (negb (fst _)); [unfold len_ok in *; up; exact L2|].
   destruct (w_err _); [exact L2|].
+  match goal with |- context [trace_recheck d e args ?a ?x] =>
+    destruct (trace_recheck_cases d e args a x) as [Crc|[Crc|(_ & a2 & _ & _ & Crc)]]; rewrite Crc; cbn [fst snd negb] end;
+    [|apply fail_len, L2|unfold recheck_discard; pose proof (no_space_len _ L2) as L2'; unfold len_ok in *; up; exact L2'].
   unfold trace_ser, trace_mark, trace_commit. cbv zeta.
   match goal with |- len_ok (if w_err ?W then _ else _) => assert (L3 : len_ok W) end.
   { apply ser_parts_len. destruct (_ && _); [apply logev_len|]; exact L2. }
@@ -260,27 +262,35 @@ Proof.
 Qed.
 
 (* what a successful reservation guarantees *)
-Lemma reserve2_ok d n w w1 : reserve2 d n w = (true, w1) -> w_err w1 = false ->
+Lemma reserve2_ok_nf d n w w1 : reserve2 d n w = (true, w1) ->
   gt_diff32 n (c_psize (w_c w1)) (c_at (w_c w1)) = false.
 Proof.
-  unfold reserve2. intros H He.
+  unfold reserve2. intros H.
   destruct (gt_diff32 n (c_psize (w_c w)) (c_at (w_c w))) eqn:G.
   - cbv zeta in H. destruct (fst (full_cb _)); [rewrite no_space_eq in H; discriminate|].
     match type of H with (if ?b then _ else _) = _ => destruct b eqn:G2 end.
-    + injection H as <-. unfold fail in He; prj. discriminate.
+    + rewrite no_space_eq in H; discriminate.
     + injection H as <-. exact G2.
   - injection H as <-. exact G.
 Qed.
-Lemma reserve_ok d w n w1 : reserve d w n = (true, w1) -> w_err w1 = false ->
+(* since the repair of S18 a successful reservation guarantees the space even when the platform
+   installed a smaller buffer: no "no error" premise any more *)
+Lemma reserve_ok_nf d w n w1 : reserve d w n = (true, w1) ->
   gt_diff32 n (c_psize (w_c w1)) (c_at (w_c w1)) = false.
 Proof.
-  rewrite reserve_eq. unfold reserve'. intros H He.
+  rewrite reserve_eq. unfold reserve'. intros H.
   destruct (gt_diff32 n _ (c_off_content _)); [rewrite no_space_eq in H; discriminate|].
   destruct (_ =? _).
   - destruct (fst (full_cb w)); [rewrite no_space_eq in H; discriminate|].
-    eapply reserve2_ok; eauto.
-  - eapply reserve2_ok; eauto.
+    eapply reserve2_ok_nf; eauto.
+  - eapply reserve2_ok_nf; eauto.
 Qed.
+Lemma reserve2_ok d n w w1 : reserve2 d n w = (true, w1) -> w_err w1 = false ->
+  gt_diff32 n (c_psize (w_c w1)) (c_at (w_c w1)) = false.
+Proof. intros H _. eapply reserve2_ok_nf; eauto. Qed.
+Lemma reserve_ok d w n w1 : reserve d w n = (true, w1) -> w_err w1 = false ->
+  gt_diff32 n (c_psize (w_c w1)) (c_at (w_c w1)) = false.
+Proof. intros H _. eapply reserve_ok_nf; eauto. Qed.
 
 (* C02, record part: if the size computed before the reservation is also the record's size at the
    position reached after it (size_stable: always true when no packet switch happened), every store
@@ -302,4 +312,61 @@ Proof.
   destruct (ser_parts_fit d _ (rec_parts_built d e ts args Hwf Hin) w1 _ Hl He Hst ltac:(lia))
     as (A & B & _ & P & _ & _ & _ & L).
   cbv zeta. rewrite P. repeat split; auto. lia.
+Qed.
+
+(* ------------------------------------------------------------------ after the repairs of S9 and S18 *)
+(* sizes computed by the size pass never go backwards *)
+Lemma size_parts_mono ps : Forall built_part ps -> forall a a', size_parts ps a = Some a' -> a <= a'.
+Proof.
+  induction 1 as [|[o v] ps Hp Hps IHp]; intros a1 a' Hs; cbn [size_parts] in Hs.
+  - injection Hs as <-. lia.
+  - destruct (size_op o v a1) as [a2|] eqn:E2; [|discriminate].
+    specialize (IHp a2 a' Hs). destruct Hp as (st & s & Hwf & Ho). cbn [fst] in Ho. subst o.
+    destruct v as [z|bs|vs]; try (unfold build_root in E2; cbn [snd size_op] in E2; discriminate).
+    destruct (ser_fits_root LE false (Nat.max a2 a1) s Hwf st vs (mk_ss (repeat false (Nat.max a2 a1)) a1 [])
+                a2 (repeat_length _ _) E2 ltac:(lia)) as [M _]. cbn [ss_at] in M. lia.
+Qed.
+
+(* what the tracing function knows when it starts serializing the record: the size of the record AT
+   THE POSITION WHERE IT IS WRITTEN fits the space left in the packet *)
+Lemma recheck_fits d e args w w1 at_end :
+  size_parts (rec_parts d e 0%Z args) (c_at (w_c w)) = Some at_end ->
+  reserve d (set_c w (set_in_ts (w_c w) true)) (at_end - c_at (w_c w)) = (true, w1) ->
+  fst (trace_recheck d e args (c_at (w_c w)) w1) = true ->
+  exists a', size_parts (rec_parts d e 0%Z args) (c_at (w_c w1)) = Some a' /\
+             gt_diff32 (a' - c_at (w_c w1)) (c_psize (w_c w1)) (c_at (w_c w1)) = false.
+Proof.
+  intros Hs Hr Hc. unfold trace_recheck in Hc.
+  destruct (c_at (w_c w1) =? c_at (w_c w)) eqn:Ea.
+  - apply Nat.eqb_eq in Ea. exists at_end. rewrite Ea. split; [exact Hs|].
+    pose proof (reserve_ok_nf d _ _ w1 Hr) as G. rewrite Ea in G. exact G.
+  - destruct (size_parts (rec_parts d e 0%Z args) (c_at (w_c w1))) as [a2|] eqn:E2; [|discriminate].
+    exists a2. split; [reflexivity|].
+    destruct (gt_diff32 _ _ _); [discriminate|reflexivity].
+Qed.
+
+(* C02, record part, after both repairs: no size_stable premise.  w: the world in which the tracing
+   function computes the size; w1: the world after a successful reservation that passed the
+   post-switch check: every store of the record is inside the packet, and the record occupies
+   exactly the size the size pass gives at the position where it is written *)
+Theorem record_in_bounds_repaired d e args w w1 at_end :
+  wf_rec d = true -> In e (d_erts d) ->
+  size_parts (rec_parts d e 0%Z args) (c_at (w_c w)) = Some at_end ->
+  reserve d (set_c w (set_in_ts (w_c w) true)) (at_end - c_at (w_c w)) = (true, w1) ->
+  fst (trace_recheck d e args (c_at (w_c w)) w1) = true ->
+  w_err w1 = false -> len_ok w1 -> c_at (w_c w1) <= c_psize (w_c w1) ->
+  forall ts,
+  let w2 := ser_parts d w1 (rec_parts d e ts args) in
+  w_err w2 = false /\ size_parts (rec_parts d e 0%Z args) (c_at (w_c w1)) = Some (c_at (w_c w2)) /\
+  c_at (w_c w1) <= c_at (w_c w2) /\ c_at (w_c w2) <= c_psize (w_c w2) /\ len_ok w2.
+Proof.
+  intros Hwf Hin Hs Hr Hc He Hl Hat ts.
+  destruct (recheck_fits d e args w w1 at_end Hs Hr Hc) as (a' & Hs' & G).
+  pose proof (size_parts_mono _ (rec_parts_built d e 0%Z args Hwf Hin) _ _ Hs') as Hm.
+  unfold gt_diff32 in G. destruct (Nat.leb_spec (c_at (w_c w1)) (c_psize (w_c w1))) as [_|]; [|lia].
+  apply Nat.ltb_ge in G.
+  pose proof Hs' as Hs''. rewrite (size_parts_ts d e 0%Z ts args) in Hs''.
+  destruct (ser_parts_fit d _ (rec_parts_built d e ts args Hwf Hin) w1 _ Hl He Hs'' ltac:(lia))
+    as (A & B & C & P & _ & _ & _ & L).
+  cbv zeta. rewrite P, B. repeat split; auto. lia.
 Qed.
